@@ -1220,6 +1220,12 @@ class Workspace(AbstractContextManager):
 
         :param entity: The entity to be registered.
         """
+        if isinstance(entity, (Group, Data, ObjectBase)):
+            # identifiers are unique across all kinds of entities
+            existing = self.find_entity(entity.uid)
+            if existing is not None and existing is not entity:
+                raise RuntimeError(f"Key '{entity.uid}' already used.")
+
         if isinstance(entity, EntityType):
             weakref_utils.insert_once(self._types, entity.uid, entity)
         elif isinstance(entity, Group):
